@@ -15,7 +15,8 @@ cargo test --workspace --no-fail-fast --offline >"$OUT/verify$N.test.log" 2>&1
 T=$(grep -E "^test result" "$OUT/verify$N.test.log" | awk '{p+=$4; f+=$6} END {print p" passed "f" failed"}')
 DEMO=$(ls "$OUT"/demo$N.sh 2>/dev/null | head -1)
 if [ -z "$DEMO" ]; then git checkout -q -- .; res "tests: $T; no demo$N.sh (see notes)"; exit 1; fi
-sh "$DEMO" >"$OUT/verify$N.demo-with.log" 2>&1; W=$?
+SH=sh; head -1 "$DEMO" | grep -q bash && SH=bash
+$SH "$DEMO" >"$OUT/verify$N.demo-with.log" 2>&1; W=$?
 git checkout -q -- .
-sh "$DEMO" >"$OUT/verify$N.demo-without.log" 2>&1; WO=$?
+$SH "$DEMO" >"$OUT/verify$N.demo-without.log" 2>&1; WO=$?
 res "head=$HEAD tests-with-change: $T; demo exit with change: $W; without: $WO"
